@@ -945,3 +945,112 @@ def r16_8(ctx, run, tabs, rule='R16.8'):
                                   'inside the braces) the integer is no longer an index and is read as a plain name or rejected', loc)
                 else:
                     run.proved(rule, fn, 'index-lookahead', 'the index alternative does not constrain the character after the integer', loc)
+
+
+# ------------------------------------------------------------------ R09.14 a context flag is forwarded unchanged
+
+def _param_names(b):
+    out = {}
+    for d in b.raw.get('debug', []):
+        pl = d.get('place') or {}
+        if not pl.get('proj') and isinstance(pl.get('local'), int) and 1 <= pl['local'] <= b.argc:
+            out[pl['local']] = d['name']
+    return out
+
+
+def _closure_agg_ops(f, cpath):
+    """the captured operands of closure `cpath` where its parent function builds it (symbolic terms of the parent), or None"""
+    parent = cpath.rsplit('::{closure', 1)[0]
+    pb = f.bodies.get(parent)
+    if pb is None:
+        return None, None
+    ps, _ = explore(pb)
+    for q in ps:
+        terms = [a for e in q.calls() for a in e[2]] + [v for v in q.store.values() if isinstance(v, tuple)] + ([q.ret] if q.ret is not None else [])
+        for a in terms:
+            for s_ in subterms(a):
+                if s_[0] == 'agg' and isinstance(s_[1], tuple) and s_[1][0] == 'closure' and s_[1][1] == cpath:
+                    return parent, s_[2]
+    return parent, None
+
+
+def resolve_param(f, body_path, term, depth=0):
+    """('param', function, n) when the term is parameter n of the (outermost) function, looked up through closure captures;
+    ('const', v) for a constant; None otherwise."""
+    t = deref_all(term)
+    while isinstance(t, tuple) and t and t[0] == 'cast' and t[1] == 'IntToInt':
+        t = deref_all(t[2])
+    if t[0] == 'const':
+        return ('const', t[1])
+    is_closure = '::{closure' in body_path
+    if t[0] == 'init':
+        if is_closure and t[1] == 1:
+            return None
+        return ('param', body_path, t[1])
+    if t[0] == 'field' and is_closure and depth < 4:
+        base = deref_all(t[1])
+        ix = t[3] if len(t) > 3 else t[2]
+        if base[0] == 'init' and base[1] == 1 and isinstance(ix, int):
+            parent, ops = _closure_agg_ops(f, body_path)
+            if ops is not None and ix < len(ops):
+                return resolve_param(f, parent, ops[ix], depth + 1)
+    return None
+
+
+def r_flag_forward(ctx, run, rule, prefixes, floor):
+    """A function that receives a boolean context flag (a `bool` parameter) and calls another function of the grammar that takes a
+    parameter of the same name must hand its own flag on: a constant there switches the context for everything parsed below
+    (`@` admitted inside a stand-alone predicate, or refused inside a filter)."""
+    f = ctx.facts
+    fam = {}
+    for p, b in f.bodies.items():
+        if b.kind == 'Promoted' or '::{closure' in p or not p.startswith(prefixes):
+            continue
+        names = _param_names(b)
+        bools = [k for k in range(1, b.argc + 1) if b.local_ty(k).get('s') == 'bool' and names.get(k)]
+        if len(bools) == 1:
+            fam[p] = (bools[0], names[bools[0]])
+    n_fwd = 0
+    for p, (k, nm) in sorted(fam.items()):
+        bodies = [x for x in f.bodies if (x == p or x.startswith(p + '::{closure')) and f.bodies[x].kind != 'Promoted']
+        b0 = f.bodies[p]
+        loc = f'{b0.file}:{b0.line}'
+        fwd = []
+        bad = []
+        unk = []
+        for x in sorted(bodies):
+            bx = f.bodies[x]
+            ps, _ = explore(bx)
+            seen = set()
+            for q in ps:
+                for e in q.calls():
+                    tgt = [g_ for g_ in fam if called(e[1], g_)]
+                    if len(tgt) != 1 or fam[tgt[0]][1] != nm:
+                        continue
+                    gk = fam[tgt[0]][0]
+                    if gk - 1 >= len(e[2]):
+                        continue
+                    a = e[2][gk - 1]
+                    key = (x, tgt[0], show(a))
+                    if key in seen:
+                        continue
+                    seen.add(key)
+                    r = resolve_param(f, x, a)
+                    short = tgt[0].split('::')[-1]
+                    if r is not None and r[0] == 'param' and r[1] == p and r[2] == k:
+                        fwd.append(short)
+                    elif r is not None and r[0] == 'const':
+                        bad.append((short, r[1]))
+                    else:
+                        unk.append((short, show(a)[:40]))
+        if not (fwd or bad or unk):
+            continue
+        n_fwd += len(fwd)
+        if bad:
+            run.violation(rule, p, f'flag[{nm}]', f'{p.split("::")[-1]} receives the context flag `{nm}` but calls {bad[0][0]}(.., {str(bad[0][1]).lower()}) with a constant: everything parsed below '
+                          f'this call is read in a fixed context whatever the caller asked for', loc)
+        elif unk:
+            run.undecided(rule, p, f'flag[{nm}]', f'the value passed for `{nm}` to {unk[0][0]} ({unk[0][1]}) is neither this function\'s own flag nor a constant: not decided', loc)
+        else:
+            run.proved(rule, p, f'flag[{nm}]', f'`{nm}` is handed on unchanged in {len(fwd)} call(s): {sorted(set(fwd))}', loc)
+    run.floor(rule, 'calls that forward a context flag', n_fwd, floor)
